@@ -490,6 +490,30 @@ func genValueUint(n *node) func(*frame) (reflect.Value, uint64) {
 	return nil
 }
 
+// shiftCountError is the run-time panic raised for a negative shift count.
+type shiftCountError struct{}
+
+func (shiftCountError) Error() string { return "runtime error: negative shift amount" }
+func (shiftCountError) RuntimeError() {}
+
+// genValueShiftCount returns the value of a shift count as a uint64. As in compiled Go,
+// a negative count of signed integer type causes a run-time panic.
+func genValueShiftCount(n *node) func(*frame) (reflect.Value, uint64) {
+	switch n.typ.TypeOf().Kind() {
+	case reflect.Int, reflect.Int8, reflect.Int16, reflect.Int32, reflect.Int64:
+		value := genValue(n)
+		return func(f *frame) (reflect.Value, uint64) {
+			v := value(f)
+			i := v.Int()
+			if i < 0 {
+				panic(shiftCountError{})
+			}
+			return v, uint64(i)
+		}
+	}
+	return genValueUint(n)
+}
+
 func genValueFloat(n *node) func(*frame) (reflect.Value, float64) {
 	value := genValue(n)
 
